@@ -69,6 +69,8 @@ mod task;
 mod tests;
 
 use task::AgentRuntimeRequest;
+#[cfg(swimos_verif)]
+pub use task::verif_hooks as task_verif_hooks;
 use tracing::{error, info_span, Instrument};
 
 /// A message type that can be sent to the agent runtime to request a link to one of its lanes.
